@@ -17,6 +17,7 @@ import (
 
 // Obligation is one proof obligation instance (one path, one clause).
 type Obligation struct {
+	NoRetry bool  // expected to fail (open known finding): a timeout gets no second chance
 	Name   string // <prop>/<func>/<kind>:<label>
 	Kind   string
 	Fn     string
